@@ -158,7 +158,8 @@ class Models(object):
         name holding a dict that was read from an object field (`registry = self.map.addr`), into that field as well: both
         name the same Python object"""
         if tgt is None:
-            raise NotImplementedError('no write-back target')
+            from .exec import Unsupported
+            raise Unsupported('mutation of a symbolic container without a place to write it back to')
         base = tgt.value
         import copy
         st = copy.copy(base)
@@ -838,6 +839,25 @@ class Models(object):
     # ---- methods of builtin types -------------------------------------------------------
     def method(self, ex, path, recv, name, args, kw):
         from .exec import Unsupported
+        if isinstance(recv, VConc) and isinstance(recv.obj, dict) and name == 'get' and 1 <= len(args) <= 2 and not kw:
+            # a real (module-level, constant) dict asked for a key: decide the key against every entry
+            default = args[1] if len(args) > 1 else NONE
+            okk, ck = concrete_of(args[0])
+            if okk:
+                try:
+                    return [(path, ex.lift_obj(recv.obj[ck]) if ck in recv.obj else default)]
+                except TypeError:
+                    return [(path, default)]
+            out, rest = [], path
+            for k_, v_ in recv.obj.items():
+                pt, rest = ex.branch(rest, ex.eq_term(rest, args[0], ex.lift_obj(k_)))
+                if pt is not None:
+                    out.append((pt, ex.lift_obj(v_)))
+                if rest is None:
+                    break
+            if rest is not None:
+                out.append((rest, default))
+            return out
         if isinstance(recv, (VStr, VBytes)):
             return self.str_method(ex, path, recv, name, args, kw)
         if isinstance(recv, VList):
@@ -1350,6 +1370,26 @@ class Models(object):
         from .exec import Unsupported
         if name == 'keys' and mv.keys is not None:
             return [(path, mv.keys)]
+        if name == 'update' and len(args) == 1 and not kw and isinstance(args[0], VDictLit) and getattr(mv, 'origin', None) is not None:
+            # d.update({k1: v1, ..}) on a dict read from a field or a local: the same stores as d[k1] = v1; ..
+            cur = mv
+            opt = TOpt(mv.vt)
+            for k_, v_ in path.heap[('dict', args[0].did)]:
+                k = cur.kt.unwrap(k_)
+                nm = VMap(z3.Store(cur.t, k, opt.dt.constructor(1)(cur.vt.unwrap(v_))), cur.kt, cur.vt)
+                if cur.keys is not None:
+                    present = znot(opt.is_none(z3.Select(cur.t, k)))
+                    nm.keys = VSeq(z3.If(present, cur.keys.t, z3.Concat(cur.keys.t, z3.Unit(k))), cur.keys.elem)
+                cur = nm
+            cur.origin = mv.origin
+            org = mv.origin
+            path.heap[org] = cur
+            if org[0] == 'l':
+                # a local alias of a field's dict: the field holds the same object
+                for key, v in list(path.heap.items()):
+                    if key[0] == 'f' and isinstance(v, VMap) and v.t is mv.t:
+                        path.heap[key] = cur
+            return [(path, NONE)]
         if name == 'values':
             return [(path, VBoundExt(mv, '__values_view__'))]
         if name == 'get':
